@@ -1234,3 +1234,58 @@ Qed.
 Lemma disabled_allows fixed it u k :
   parse_mode (it_mode it) = Disabled -> is_allowed_gen fixed (compute it) u k = true.
 Proof. intros H. apply decision_disabled. rewrite (proj1 (compute_mode_default it)). auto. Qed.
+
+(* ============================================================================================== *)
+(* 12. order inside a role's privilege list and an assignment's identity list                      *)
+(* ============================================================================================== *)
+Definition role_eqv (r r' : role) : Prop := r_name r = r_name r' /\ Permutation (r_privs r) (r_privs r').
+Definition asg_eqv (a a' : assignment) : Prop := a_role a = a_role a' /\ Permutation (a_ids a) (a_ids a').
+
+Definition inner_permuted (it it' : item) : Prop :=
+  it_default it = it_default it' /\ it_mode it = it_mode it' /\
+  match sections it, sections it' with
+  | Some (ps, rs, ids, ras), Some (ps', rs', ids', ras') =>
+      ps = ps' /\ Forall2 role_eqv rs rs' /\ ids = ids' /\ Forall2 asg_eqv ras ras'
+  | None, None => True
+  | _, _ => False
+  end.
+
+Lemma existsb_Forall2 {A} (R : A -> A -> Prop) (f g : A -> bool) l l' :
+  Forall2 R l l' -> (forall x y, R x y -> f x = g y) -> existsb f l = existsb g l'.
+Proof. induction 1; simpl; auto. intros H'. rewrite (H' _ _ H), IHForall2; auto. Qed.
+
+Lemma Forall2_map_eq {A T} (R : A -> A -> Prop) (h : A -> T) l l' :
+  Forall2 R l l' -> (forall x y, R x y -> h x = h y) -> map h l = map h l'.
+Proof. induction 1; simpl; auto. intros H'. rewrite (H' _ _ H), IHForall2; auto. Qed.
+
+Lemma spec_granted_inner rs rs' ids ras ras' p k :
+  Forall2 role_eqv rs rs' -> Forall2 asg_eqv ras ras' ->
+  spec_granted rs ids ras p k = spec_granted rs' ids ras' p k.
+Proof.
+  intros FR FA. unfold spec_granted. apply (existsb_Forall2 asg_eqv _ _ _ _ FA).
+  intros a a' [E P]. f_equal.
+  - apply (existsb_Forall2 role_eqv _ _ _ _ FR). intros r r' [En Pp]. rewrite En, E. f_equal.
+    apply existsb_perm; auto.
+  - apply existsb_perm; auto.
+Qed.
+
+Theorem inner_order_irrelevant it it' u k :
+  has_duplicate_names it = false -> inner_permuted it it' ->
+  is_allowed (compute it) u k = is_allowed (compute it') u k.
+Proof.
+  intros H (ED & EM & S).
+  assert (H' : has_duplicate_names it' = false).
+  { unfold has_duplicate_names in *.
+    destruct (sections it) as [[[[ps rs] ids] ras]|], (sections it') as [[[[ps' rs'] ids'] ras']|];
+      try contradiction; auto.
+    destruct S as (-> & FR & -> & FA).
+    rewrite <- (Forall2_map_eq role_eqv r_name _ _ FR); auto. intros x y [E _]; auto. }
+  rewrite !decision_equals_spec by auto.
+  unfold spec_allowed. rewrite <- ED, <- EM.
+  destruct (sections it) as [[[[ps rs] ids] ras]|], (sections it') as [[[[ps' rs'] ids'] ras']|];
+    try contradiction; auto.
+  destruct S as (-> & FR & -> & FA).
+  rewrite (existsb_ext_in (fun p => priv_match_spec p u && spec_granted rs ids' ras p k)
+                          (fun p => priv_match_spec p u && spec_granted rs' ids' ras' p k)); auto.
+  intros p _. f_equal. apply spec_granted_inner; auto.
+Qed.
